@@ -139,7 +139,7 @@ Definition q_update (q : qarc) (s : S) (push : bool) : qarc * S * vqip * vqip :=
   (mkQ a' (q_n q) rs (q_qs q) (q_qs_ q) (q_dec q) (q_decayed q) (q_T q), s', rm, bk).
 
 Definition q_send_push (q : qarc) (s : S) (v : vqip) (force : bool) (time : nat) : qarc * S * vqip :=
-  if Qltb (vol v) eps then (q, s, vzero)
+  if Qltb (vol v) eps then (q, s, v)            (* too little to queue: handed back whole *)
   else
     let not_pushed :=
       if force then vzero
@@ -227,7 +227,7 @@ Definition l_update (l : altarc) (s : S) : altarc * S * vqip :=
   (mkAlt a' (l_n l) b' (l_qs l) (l_qs_ l) (l_dec l) (l_decayed l) (l_T l), s', back).
 
 Definition l_send_push (l : altarc) (s : S) (v : vqip) (force : bool) (time : nat) : altarc * S * vqip :=
-  if Qltb (vol v) eps then (l, s, vzero)
+  if Qltb (vol v) eps then (l, s, v)
   else
     let not_pushed :=
       if force then vzero
